@@ -15,31 +15,9 @@ REQ = N("number_of_vehicles_required_to_serve")
 MFC = N("maximal_formation_count_for")
 
 
-def rules(ctx):
-    fd, edges = flownet.edge_sites(ctx)
-    flownet.need(ctx, "R1.trip-lower-bound", edges, "trip", "lower_bound", [call(REQ), call(MFC), "param:2"],
-                 "trip edges must carry min(required vehicles, applicable formation limit of that trip)")
-    # requirement function: per-quantity pairing passengers/capacity, seated/seats
-    o, fd2 = ctx.require_fn("R2.required-vehicles-pairing", "T1", REQ,
-                            "required vehicles = max(ceil(passengers / capacity), ceil(seated / seats))")
-    if fd2 is not None:
-        divs = [c for c in fd2.body.calls() if c.callee and c.callee.endswith("::div_ceil")]
-        pairs = set()
-        for c in divs:
-            a = fd2.slice_operand_pure(c, c.args[0])["atoms"]
-            b = fd2.slice_operand_pure(c, c.args[1])["atoms"]
-            num = "passengers" if call(ST + "::passengers") in a else ("seated" if call(ST + "::seated") in a else "?")
-            den = "capacity" if call(VT + "::capacity") in b else ("seats" if call(VT + "::seats") in b else "?")
-            pairs.add((num, den))
-        rs = fd2.ret_slice()["atoms"]
-        ok = pairs == {("passengers", "capacity"), ("seated", "seats")} and has_method(rs, "core::cmp::Ord::max") \
-            and "param:2" in rs and "param:3" in rs
-        ctx.decide(o, ok, "passengers/capacity and seated/seats, combined with max", "divisions pair %s%s" % (
-            sorted(pairs), "" if has_method(rs, "core::cmp::Ord::max") else " and are not combined with max"))
-    limit_combination(ctx)
-    objective.level_order(ctx, "R3")
-    # the unserved indicator sums both deficits
-    o, fd3 = ctx.require_fn("R3.unserved-is-a-sum", "T1", objective.IND("UnservedPassengersIndicator"),
+def unserved_is_a_sum(ctx, rid):
+    """the unserved indicator sums both deficits"""
+    o, fd3 = ctx.require_fn("%s.unserved-is-a-sum" % rid, "T1", objective.IND("UnservedPassengersIndicator"),
                             "unserved passengers = passengers not fitting + passengers not seated (a sum)")
     if fd3 is not None:
         ok = False
@@ -64,6 +42,32 @@ def rules(ctx):
                 if len(idx) == 2 and ((idx[0] == {0} and idx[1] == {1}) or (idx[0] == {1} and idx[1] == {0})):
                     ok = True
         ctx.decide(o, ok, "component 0 + component 1", "the two deficit components are not added (e.g. combined with max)")
+
+
+def rules(ctx):
+    fd, edges = flownet.edge_sites(ctx)
+    flownet.need(ctx, "R1.trip-lower-bound", edges, "trip", "lower_bound", [call(REQ), call(MFC), "param:2"],
+                 "trip edges must carry min(required vehicles, applicable formation limit of that trip)")
+    # requirement function: per-quantity pairing passengers/capacity, seated/seats
+    o, fd2 = ctx.require_fn("R2.required-vehicles-pairing", "T1", REQ,
+                            "required vehicles = max(ceil(passengers / capacity), ceil(seated / seats))")
+    if fd2 is not None:
+        divs = [c for c in fd2.body.calls() if c.callee and c.callee.endswith("::div_ceil")]
+        pairs = set()
+        for c in divs:
+            a = fd2.slice_operand_pure(c, c.args[0])["atoms"]
+            b = fd2.slice_operand_pure(c, c.args[1])["atoms"]
+            num = "passengers" if call(ST + "::passengers") in a else ("seated" if call(ST + "::seated") in a else "?")
+            den = "capacity" if call(VT + "::capacity") in b else ("seats" if call(VT + "::seats") in b else "?")
+            pairs.add((num, den))
+        rs = fd2.ret_slice()["atoms"]
+        ok = pairs == {("passengers", "capacity"), ("seated", "seats")} and has_method(rs, "core::cmp::Ord::max") \
+            and "param:2" in rs and "param:3" in rs
+        ctx.decide(o, ok, "passengers/capacity and seated/seats, combined with max", "divisions pair %s%s" % (
+            sorted(pairs), "" if has_method(rs, "core::cmp::Ord::max") else " and are not combined with max"))
+    limit_combination(ctx)
+    objective.level_order(ctx, "R3")
+    unserved_is_a_sum(ctx, "R3")
     # R4 frames: post-search stages never touch formations / unserved counters
     sites = common.sites_of(ctx, SCHEDULE)
     for fn in ("set_next_day_transitions", "reassign_end_depots_consistent_with_transitions", "improve_depots", "recompute_transitions_for"):
